@@ -70,6 +70,12 @@ CHECKS = {
             'a trace is accepted iff some serial order of Spec A explains every response, error class and the final stored state up to renaming of trial ids; deadlock = no runnable thread.',
             'Granularity as C04 states: each DataStore method is atomic (it holds the datastore lock). Instrumentation replaces plain attributes of the servicer (datastore, three lock tables); '
             'no repository hook. The PlusCal design-level model (Spec B) of DESIGN 4.2 is not ported yet: the code-level layer does not depend on it.'),
+    'C05': (MC, '5 C05', 'VizierCrash.tla (Spec C: per-RPC chain of committed datastore states over VizierAtomic.Apply, recovery probes) model-checked with TLC; '
+            'crash injection into the real SQLite-backed servicer at every statement / commit / datastore-return point (SQLAlchemy events), the file image reopened by a fresh servicer and compared with the model',
+            'TLC checks on the model that single-resource calls have at most one durable step, that the chain ends in the acknowledged state, that every post-crash state is well-formed and usable '
+            '(suggest + complete by the same and by another worker). On the code every crash image must equal one state of the model\'s chain for that scenario (no torn state), all rows must '
+            'decode, no orphan or duplicate rows, and the recovery probes must answer as the model says.',
+            'Process death only (file + rollback journal copied at the point), SQLite DELETE journal mode, single server process. Scenarios crashed are a seeded sample of the model\'s transitions in quick.'),
 }
 
 PENDING = {
